@@ -52,6 +52,24 @@ int main() {
       is >> a >> b >> c;
       const stensor<1u, double> s = {a, b, c};
       std::printf("tresca %.17g %.17g\n", tresca(s), tresca(s, true));
+    } else if (op == "sigmaeq") {
+      // the von Mises norm on double: accuracy on states dominated by their hydrostatic part
+      int n;
+      double a[6] = {0, 0, 0, 0, 0, 0};
+      is >> n;
+      for (int k = 0; k != (n == 1 ? 3 : (n == 2 ? 4 : 6)); ++k) is >> a[k];
+      double r = 0;
+      if (n == 1) {
+        const stensor<1u, double> s = {a[0], a[1], a[2]};
+        r = sigmaeq(s);
+      } else if (n == 2) {
+        const stensor<2u, double> s = {a[0], a[1], a[2], a[3]};
+        r = sigmaeq(s);
+      } else {
+        const stensor<3u, double> s = {a[0], a[1], a[2], a[3], a[4], a[5]};
+        r = sigmaeq(s);
+      }
+      std::printf("sigmaeq %.17g\n", r);
     } else if (op == "voigt") {
       voigt<1>();
       voigt<2>();
